@@ -371,6 +371,13 @@ func (c *boundsCtx) addCondFacts(g *dgraph, cond ssa.Value, val bool) {
 		}
 		rf := refOf(x.Common())
 		if (rf.Pkg == "strings" || rf.Pkg == "bytes") && len(x.Call.Args) == 2 {
+			if _, isC := constString(x.Call.Args[1]); !isC {
+				switch rf.Name {
+				case "HasPrefix", "HasSuffix", "Contains":
+					g.addLE(term{"len(" + c.key(x.Call.Args[1]) + ")", 0}, term{"len(" + c.key(x.Call.Args[0]) + ")", 0})
+					c.defFacts(g, x.Call.Args[1], map[ssa.Value]bool{}, 0)
+				}
+			}
 			if s, ok := constString(x.Call.Args[1]); ok {
 				switch rf.Name {
 				case "HasPrefix", "HasSuffix", "Contains":
@@ -539,8 +546,28 @@ func (c *boundsCtx) defFacts(g *dgraph, v ssa.Value, seen map[ssa.Value]bool, de
 			}
 		}
 		if u, ok := v.(*ssa.UnOp); ok && u.Op == token.MUL {
-			// element of a FindAll*Submatch result: handled in minLen
-			_ = u
+			// load of a field of a struct allocated in this function: if the field is stored
+			// exactly once, the load yields that value's length
+			if fa, ok := u.X.(*ssa.FieldAddr); ok {
+				if al, ok := fa.X.(*ssa.Alloc); ok {
+					var stored []ssa.Value
+					forEachInstr(c.fn, func(_ *ssa.BasicBlock, _ int, in ssa.Instruction) {
+						st, ok := in.(*ssa.Store)
+						if !ok {
+							return
+						}
+						if fa2, ok := st.Addr.(*ssa.FieldAddr); ok && fa2.X == ssa.Value(al) && fa2.Field == fa.Field {
+							stored = append(stored, st.Val)
+						}
+					})
+					if len(stored) == 1 && isSliceOrString(stored[0].Type()) {
+						sl := term{"len(" + c.key(stored[0]) + ")", 0}
+						g.addLE(ln, sl)
+						g.addLE(sl, ln)
+						c.defFacts(g, stored[0], seen, depth+1)
+					}
+				}
+			}
 		}
 	}
 }
@@ -612,6 +639,12 @@ func (c *boundsCtx) intDefFacts(g *dgraph, v ssa.Value, k string, seen map[ssa.V
 			case "Count":
 				g.addLE(term{zeroSym, 0}, term{k, 0})
 			}
+		}
+		if rf.Pkg == "slices" && (rf.Name == "Index" || rf.Name == "IndexFunc") {
+			S := "len(" + c.key(x.Call.Args[0]) + ")"
+			g.addLE(term{zeroSym, -1}, term{k, 0})
+			g.addLE(term{k, 1}, term{S, 0})
+			c.defFacts(g, x.Call.Args[0], seen, depth+1)
 		}
 		if rf.Pkg == "strings" && rf.Name == "Compare" {
 			g.addLE(term{zeroSym, -1}, term{k, 0})
